@@ -418,8 +418,12 @@ def main_check(prop, tier, base_seed, budget, max_runs, workers, verbose=False):
                 if r["own"] and first_violation is None:
                     first_violation = r
                     stop_submitting = True
-            if time.time() > deadline:
+            if time.time() > deadline or stop_submitting:
                 stop_submitting = True
+                # runs that have not started yet are dropped, running ones finish
+                for f in list(pending):
+                    if f.cancel():
+                        pending.discard(f)
     n_runs = len(results)
     steps = sum(r["n_ops"] for r in results)
     extra_stats = Counter()
